@@ -57,7 +57,10 @@ where
         + ContextError<Span<'a>>
         + std::fmt::Debug,
 {
-    preceded(char('$'), delimited(char('{'), super::op_0, char('}')))(input)
+    preceded(
+        char('$'),
+        delimited(char('{'), super::op_0, super::ws(char('}'))),
+    )(input)
 }
 
 fn parse_template_fragment<'a, E>(input: Span<'a>) -> IResult<Span<'a>, StringFragment<'a>, E>
